@@ -16,7 +16,7 @@ HEADLINE = ['second_assemblies', 'sequences', 'assemblies', 'assembled_ok', 'rej
 
 def floors(tier):
     return {'assemblies': 1500, 'assembled_ok': 500, 'rejected_dangling_motor': 50, 'rejected_duplicate_names': 50, 'duplicates_outside_chain_accepted': 30, 'reroutes': 1000,
-            'self_locking_true': 40, 'self_locking_false': 300, 'immutability_checks': 1000, 'post_assembly_declarations': 500, 'chains_with_two_worms': 10, 'second_assemblies': 300, 'use_phase_runs': 60,
+            'self_locking_true': 40, 'self_locking_false': 300, 'immutability_checks': 1000, 'post_assembly_declarations': 500, 'chains_with_two_worms': 10, 'second_assemblies': 300, 'use_phase_runs': 60, 'resets_after_later_declarations': 30,
             'set:nontrivial': 60, 'set:chain_lengths': 8}
 
 
@@ -145,6 +145,7 @@ def sequence(ctx, i):
             return
     flag0 = pt.self_locking
     ids0 = [id(e) for e in pt.elements]
+    deferred_reset = False
     if rng.random() < 0.5:
         # the powertrain is USED (a short simulation, then reset): element tuple and flag are fixed at construction and stay.
         # Whether the run itself succeeds is not this property's business (efficiency 0, missing data...): only counted.
@@ -159,9 +160,11 @@ def sequence(ctx, i):
         except Exception as ex:
             ctx.count('use_phase_runs_failed')
             ctx.seen('use_phase_run_failures', type(ex).__name__ + ': ' + str(ex)[:60])
+        deferred_reset = rng.random() < 0.5          # the reset comes only after the later declarations (below)
         try:
-            pt.reset()
-            ctx.count('use_phase_resets')
+            if not deferred_reset:
+                pt.reset()
+                ctx.count('use_phase_resets')
         except Exception:
             ctx.count('use_phase_resets_failed')
         if [id(e) for e in pt.elements] != ids0 or pt.self_locking is not flag0:
@@ -178,6 +181,17 @@ def sequence(ctx, i):
     if [id(e) for e in pt.elements] != ids0 or pt.self_locking is not flag0:
         ctx.violation('C20:powertrain-changed-after-later-declarations', dict(wit, elements_after=[(type(e).__name__, e.name) for e in pt.elements], flag_before=flag0, flag_after=pt.self_locking), case)
         return
+    if deferred_reset:
+        # the used powertrain is reset only now, after relations (possibly of its own worm) were declared anew: still the same
+        # elements and the flag fixed at construction
+        try:
+            pt.reset()
+            ctx.count('resets_after_later_declarations')
+        except Exception:
+            ctx.count('use_phase_resets_failed')
+        if [id(e) for e in pt.elements] != ids0 or pt.self_locking is not flag0:
+            ctx.violation('C20:powertrain-changed-by-reset-after-later-declarations', dict(wit, elements_after=[(type(e).__name__, e.name) for e in pt.elements], flag_before=flag0, flag_after=pt.self_locking), case)
+            return
     # a second powertrain assembled from the same motor after the later declarations follows the *new* graph
     chain2, seen2, cyc2 = [motor], {id(motor)}, False
     while id(chain2[-1]) in shadow:
